@@ -680,6 +680,24 @@ func execCand(r *mon.Run, c *Cand, rng *rand.Rand) {
 		}
 	}
 	if cl != valid {
+		// accepted although unspecified: whatever it binds, requests
+		// instantiated from it must come back without a panic
+		if t != nil {
+			for k := 0; k < 3; k++ {
+				in := Instantiate(rng, t, reqDesc(), false)
+				verb := reqVerbFor(rng, c.Rule.Verb)
+				body := ""
+				if c.Rule.Body != "" {
+					body = []string{`{"a":"x"}`, `{"k":"v"}`, `"x"`}[k]
+				}
+				o := b.Do(verb, in.Path(), body, nil)
+				r.Count("unspecified_accepted_probes", 1)
+				if o.Panic != nil {
+					r.Violate(o.Panic.Key()+":unspecified-rule-accepted:"+reason, fmt.Sprintf("%s %s (body %q) panicked after %s %q body=%q response_body=%q (%s) was accepted: %s", verb, in.Path(), body, c.Rule.Verb, c.Rule.Tmpl, c.Rule.Body, c.Rule.Resp, reason, o.Panic.Value), c)
+					return
+				}
+			}
+		}
 		r.Distinct(shapeKey + ":accepted")
 		return
 	}
@@ -768,7 +786,7 @@ func mutants(tmpl string, rng *rand.Rand, all bool) []string {
 	return out
 }
 
-var bodySelectors = []string{"", "*", "sub", "sub.deep", "osub", "ws", "nope", "sub.nope", "a", "rs", "m", "rsub", "sub.a", "sub.deep.s", "a.b", "rsub.a", "customJson", "long_name", "longName", "*.a", "sub.", ".sub", "sub..deep"}
+var bodySelectors = []string{"", "*", "m.value", "m.key", "rn", "sub", "sub.deep", "osub", "ws", "nope", "sub.nope", "a", "rs", "m", "rsub", "sub.a", "sub.deep.s", "a.b", "rsub.a", "customJson", "long_name", "longName", "*.a", "sub.", ".sub", "sub..deep"}
 var respSelectors = []string{"", "echo", "sub", "echo.sub", "echo.sub.deep", "body", "nope", "echo.nope", "tag", "items", "data", "echo.a", "echo.rsub", "echo.rsub.deep", "*", "echo."}
 
 // RunC16 is the registration-validity check.
@@ -790,7 +808,7 @@ func RunC16(r *mon.Run) {
 
 	// (a) grammar-derived valid templates, (b) their single-edit mutants
 	nt := r.Pick(40, 800)
-	handTemplates := []string{"/v1/reports:7d", "/v1/idx/{a}:_search", "/v1/x:2fa", "/v1/y:-z", "/v1/z:.w", "/{a={b}}", "/v1/{a=x1/{b}/y1}", "/{a={b={c}}}/z", "/**/x1", "/{a=**}/x1", "/1a/{a}", "/-x/_y/.z", "/{rs}", "/{sub}", "/{m}", "/{a}/{a}", "/{rsub.a}", "/{sub.rs}", "/q", "/q/{a}", "/v/{sub.deep.s}:x", "/a-b/x.y/{a=q/*}", "/é/{b=ü/**}", "/{a}/{b}/{c}/{d}", "/v1/{sub.a=sh/*/bk/*}", "/q/**", "/*/{n}", "/{ws}", "/{ts}/x1"}
+	handTemplates := []string{"/v1/reports:7d", "/v1/idx/{a}:_search", "/v1/x:2fa", "/v1/y:-z", "/v1/z:.w", "/{a={b}}", "/v1/{a=x1/{b}/y1}", "/{a={b={c}}}/z", "/**/x1", "/{a=**}/x1", "/1a/{a}", "/-x/_y/.z", "/{rs}", "/{sub}", "/{m}", "/{m.value}", "/{m.key}", "/mp/{m.value}/{a}", "/{rsub.a}/x1", "/{rn}", "/{a}/{a}", "/{rsub.a}", "/{sub.rs}", "/q", "/q/{a}", "/v/{sub.deep.s}:x", "/a-b/x.y/{a=q/*}", "/é/{b=ü/**}", "/{a}/{b}/{c}/{d}", "/v1/{sub.a=sh/*/bk/*}", "/q/**", "/*/{n}", "/{ws}", "/{ts}/x1"}
 	for i := 0; i < nt; i++ {
 		var tmpl string
 		if i < len(handTemplates) {
